@@ -6,7 +6,7 @@ LEVEL = 'exploration'
 EVAL_KEY = 'steps'
 TIERS = {
     'quick': {'runs': 1200, 'opts': {'length': [40, 40]}, 'chunk': 15},
-    'thorough': {'runs': 40000, 'opts': {'length': [40, 120]}, 'chunk': 50, 'time_cap': 1500},
+    'thorough': {'runs': 40000, 'opts': {'length': [40, 120], 'pairs': True}, 'chunk': 50, 'time_cap': 1500},
 }
 RULE = ('seeded histories of public torchtt calls over a heap of <=12 live, aliasing TT objects (order<=4, sizes<=4, '
         'creation ranks<=3); evaluations = executed history steps; a case is distinct by (operation, structure of every '
